@@ -759,7 +759,10 @@ func (st *c10State) checkTree(rep *kit.Report, t *c10Tree, full bool, single int
 		bname := []byte(name)
 		rep.Eval(1)
 		if scope != 0 && want != 0 && want != scope {
-			rep.DistinctNontrivial(kit.Hash("P", fmt.Sprint(scope), t.Text))
+			if rep.DistinctNontrivial(kit.Hash("P", fmt.Sprint(scope), t.Text)) && single < 0 {
+				rep.Sample(3, map[string]string{"state": st.label, "measurement": name, "predicate": t.Text,
+					"visible": c10MaskString(scope), "expected": c10MaskString(want)})
+			}
 		}
 
 		// (1) show path, ids
@@ -973,17 +976,20 @@ type c10Runner struct {
 	// prefixes at which a history was stopped by a violation that corrupts the state (second id for one
 	// series ...): every extension fails at the same step in the same way, so it is run once per worker
 	stopped map[string]bool
+	skipped bool // the last runHistory call was such an extension and was not executed
 }
 
 // runHistory executes one sequence on a fresh index; returns the number of violations it added.
 func (r *c10Runner) runHistory(seq []int, sweepEvery bool, tree string) (int64, []string) {
 	rep := r.rep
 	before := rep.NViolations
+	r.skipped = false
 	names := c10OpNames(seq)
 	if r.stopped != nil {
 		for i := 1; i <= len(names); i++ {
 			if r.stopped[strings.Join(names[:i], ",")] {
 				rep.Count("histories_skipped_extension_of_stopped_prefix", 1)
+				r.skipped = true
 				return 0, nil
 			}
 		}
@@ -1097,7 +1103,9 @@ func (r *c10Runner) runHistory(seq []int, sweepEvery bool, tree string) (int64, 
 		}
 	}
 	if nontrivial {
-		rep.DistinctNontrivial(kit.Hash("H", strings.Join(names, ",")))
+		if rep.DistinctNontrivial(kit.Hash("H", strings.Join(names, ","))) {
+			rep.Sample(6, map[string]any{"history": names, "ids": fmt.Sprintf("%x", st.ids), "visible_at_end": c10MaskString(st.visible)})
+		}
 	}
 	st.guard(rep, "close", func() { st.x.close() })
 	closed = true
@@ -1373,6 +1381,9 @@ func c10RunHistories(r *c10Runner, rep *kit.Report, thorough bool) {
 			}
 			s := append([]int(nil), seq...)
 			nv, kinds := r.runHistory(s, !thorough, "")
+			if r.skipped {
+				return
+			}
 			done++
 			if nv > 0 && len(kinds) > 0 && r.recheck[kinds[0]] < 3 {
 				// determinism rule: a failing history must fail the same way when re-executed from scratch
